@@ -4,6 +4,7 @@ package main
 
 import (
 	"fmt"
+	"strings"
 	"go/types"
 
 	"golang.org/x/tools/go/ssa"
@@ -42,8 +43,13 @@ func (e *Engine) lookupType(pkgPath, name string) types.Type {
 }
 
 func (e *Engine) newBlob(name string, lo, hi uint64) BytesV {
+	garbage := strings.HasPrefix(name, "garbage:")
+	name = strings.TrimPrefix(name, "garbage:")
 	n := e.freshName(name)
 	arr := e.tt.Var("blob:"+n, sortArray)
+	if garbage {
+		arr = e.tt.Var("blob:garbage:"+n, sortArray)
+	}
 	l := e.tt.Var("len:"+n, 64)
 	e.nondets = append(e.nondets, &Nondet{Name: n, Kind: "blob", Term: l, Arr: arr})
 	if lo == hi {
@@ -51,6 +57,7 @@ func (e *Engine) newBlob(name string, lo, hi uint64) BytesV {
 		e.nondets[len(e.nondets)-1].Term = l
 	} else {
 		e.addPC(e.tt.And(e.tt.Cmp("bvule", e.c64(lo), l), e.tt.Cmp("bvule", l, e.c64(hi))))
+		e.varBound[l.id] = ival{lo, hi}
 	}
 	var r Rope
 	if !(l.isConst() && l.u64() == 0) {
@@ -92,6 +99,8 @@ func (e *Engine) harnessAPI(name string, args []Value, fn *ssa.Function) (Value,
 		return e.newBlob(e.argStr(args[0]), 0, 1<<31-1), true
 	case "vBlobN":
 		return e.newBlob(e.argStr(args[0]), uint64(e.argInt(args[1])), uint64(e.argInt(args[2]))), true
+	case "vGarbage":
+		return e.newBlob("garbage:"+e.argStr(args[0]), uint64(e.argInt(args[1])), uint64(e.argInt(args[2]))), true
 	case "vStr":
 		// string with concrete length chosen by forking (0..max), symbolic bytes
 		n := e.freshName(e.argStr(args[0]))
